@@ -44,6 +44,38 @@ def specs(sz):
     ]
 
 
+ZIP_PROBE = r'''
+#include <stdio.h>
+#include <stddef.h>
+#include <stdarg.h>
+void log_msg (int priority, const char *format, ...) {}
+#include "zip.c"
+int main(void){
+  printf ("ZIP_MAGIC %lld\nZIP_META %lld\nOFF_magic %lld\nOFF_length %lld\nSZ_magic %lld\nSZ_length %lld\n", (long long) ZIP_MAGIC, (long long) sizeof (zip_meta_t),
+          (long long) offsetof (zip_meta_t, magic), (long long) offsetof (zip_meta_t, length),
+          (long long) sizeof (((zip_meta_t *) 0)->magic), (long long) sizeof (((zip_meta_t *) 0)->length));
+  return 0; }
+'''
+
+
+def zip_spec(z):
+    return [dict(name="zip_decompress_length", cursors={"src": "src"}, params=["type", "len"], inputs=[],
+                 sizeofs={"zip_meta_t": z["ZIP_META"], "struct zip_meta_t": z["ZIP_META"]},
+                 struct_fields={"magic": (z["OFF_magic"], z["SZ_magic"]), "length": (z["OFF_length"], z["SZ_length"])}, calls={})]
+
+
+def generate_zip(ctx):
+    out = run_probe(ctx, "zip_layout", ZIP_PROBE, gc=True)
+    if out is None:
+        ctx.obligation("gen", "layout of zip_meta_t probed", False)
+        return None
+    z = dict((l.split()[0], int(l.split()[1])) for l in out.strip().split("\n"))
+    d = translate_kernels(ctx, "src/munged/zip.c", zip_spec(z), cls=CursorTranslator)
+    if d is None:
+        return None
+    return "def ZIP_MAGIC : Int := %d\ndef ZIP_META_SIZE : Int := %d\n\n" % (z["ZIP_MAGIC"], z["ZIP_META"]) + d
+
+
 def generate(ctx):
     sz = probe_sizes(ctx)
     ctx.obligation("gen", "sizes of the unpack destinations probed", sz is not None)
@@ -56,6 +88,9 @@ def generate(ctx):
     body += "import Munge.C.Kernel\nimport Munge.C.Cursor\nset_option linter.unusedVariables false\nnamespace Munge.Gen.Unpack\nopen Munge.C\n\n"
     for k, v in sz.items():
         body += "def %s : Int := %d\n" % (k, v)
-    body += "\n" + d + "\nend Munge.Gen.Unpack\n"
+    zd = generate_zip(ctx)
+    if zd is None:
+        return False
+    body += "\n" + d + "\n" + zd + "\nend Munge.Gen.Unpack\n"
     gen_write("Unpack", body)
     return True
